@@ -377,7 +377,6 @@ def taskName (s : Stack) (tid : Nat) : String :=
   | none => "task:?"
 
 def cbName (s : Stack) : Cb → String
-  | .handleOffer _ _ => "handle_offer"
   | .connLost .subscriber => "connection_lost:subscriber"
   | .connLost .discovery => "connection_lost:discovery"
   | .connLost .announcer => "connection_lost:announcer"
